@@ -199,6 +199,38 @@ def run(prop, tier, seed, verdict, profile=None, n=None):
                                        "with_panic": la[k] if k < len(la) else None, "without_panic": lb[k] if k < len(lb) else None,
                                        "what": "an operation other than the panic key itself behaves differently because a panic happened earlier"}, True)
                     break
+    # ---- C05 speaks about every configuration *the parser accepts*: the generated configurations above are inside the ranges
+    # the parser is proved to enforce (C10_in_range on the parser model). The real parser is given configurations that are
+    # outside them in exactly one field; if it accepts one, that field goes into a status or data byte as it is
+    gate_checked = 0
+    if prop == "C05":
+        import parsegen, check_c10
+        cbin, _ = go_build("config")
+        if cbin is not None:
+            KEY, ABS = parsegen.evdev_tables()
+            rng3 = random.Random(seed * 31 + 5)
+            files, metas = [], []
+            # only values that no message can carry (a controller 120-127 or an offset of 16 is the parser's business, C10)
+            rangey = ("velocity", "default-channel", "channel-zero", "channel-high", "channel-negative", "channel-far", "note-high", "note-negative",
+                      "note-far", "cc-negative", "cc-far", "ccneg-negative", "ccneg-far", "noteneg")
+            for _ in range(150 if tier == "quick" else 3000):
+                d = parsegen.gen_desc(rng3, KEY, ABS)
+                for kind, dd, extra in parsegen.invalidations(d, rng3):
+                    if any(k in kind for k in rangey) and "text" not in kind and "three" not in kind and "offset" not in kind:
+                        files.append(parsegen.render(dd, extra).encode())
+                        metas.append(kind)
+            res, _ = check_c10.run_batch(cbin, workdir, files, "c05gate")
+            gate_checked = len(files)
+            seen_k = set()
+            for f, kind, (r, _) in zip(files, metas, res):
+                if r.startswith("ok") and kind not in seen_k:
+                    seen_k.add(kind)
+                    verdict.violation({"clause": "parser-accepts-a-value-the-messages-cannot-carry", "field": kind},
+                                      {"file": f.decode("utf8", "replace"), "field": kind, "parser_result": r[:1500],
+                                       "what": "ParseData accepts a configuration with a note / controller / velocity / channel / offset outside the MIDI "
+                                               "ranges; the device puts the value into a status or data byte unchanged (or truncated to 8 bits)"}, True)
+                    if len(seen_k) >= 3:
+                        break
     # ---- report
     for c, fails in viol[:3]:
         f0 = fails[0]
@@ -258,6 +290,7 @@ def run(prop, tier, seed, verdict, profile=None, n=None):
         "corpus_cases": len(corpus),
         "disagreements": len(disag), "monitor_failures": len(viol), "extra_search_cases": extra_searched,
         "panic_twin_histories_compared": twin_checked,
+        "out_of_range_configurations_offered_to_the_parser": gate_checked,
         "exec_wall_s": round(time.time() - t0, 1),
     }
     return cov
